@@ -35,7 +35,14 @@ func c13TemplateNames(text string) (ns string, names []string) {
 
 var c13PhPool = []string{"{$rec.a}", "{$d.a}", "{$a}", "{$a_1}", "{$a_2}", "{$rec.b}", "{$d.b}", "{$b}", "{$rec['a']}", "{$a + 1}",
 	"{length(keys(['b': 1, 'a': $a, 'c': 3]))}", "{length(keys(['c': 3, 'a': $a, 'b': 1]))}", "{$rec.c[0]}", "{$d.c.0}",
-	"<a href=\"x\">", "</a>", "<br/>", "<b>", "</b>", "<a href=\"y\">", "{G_INT}", "{$a_1|escapeUri}", "{$b|truncate:3}"}
+	"<a href=\"x\">", "</a>", "<br/>", "<b>", "</b>", "<a href=\"y\">", "{G_INT}", "{$a_1|escapeUri}", "{$b|truncate:3}",
+	"{$l[0]}", "{$l[$a]}", "{$l.0}", "{$rec.c[$a]}", "{$rec?.a}", "{$d['a']}"}
+
+// c13Selectors: {plural} selectors.  The same expression texts occur as print
+// placeholders in c13PhPool (a data reference that ends in an index or a
+// computed access has no derived base name: its placeholder name is the
+// default of its ROLE, XXX for a print and NUM for a selector).
+var c13Selectors = []string{"$a", "$rec.a", "$a_1", "$a", "$rec.c[0]", "$d.c.0", "$l[0]", "$l[$a]", "$l.0", "$rec['a']", "$d['a']", "$rec.c[$a]", "length($l)"}
 
 // c13Family returns n distinct identifiers related to stem by case, prefix,
 // separator and digits.  Wherever a name becomes the key of a Go map, is sorted
@@ -108,7 +115,7 @@ func (g *c13gen) msg() string {
 	sb.WriteString("}")
 	if g.r.Chance(25) {
 		g.feat("plural")
-		sb.WriteString("{plural " + g.r.Pick([]string{"$a", "$rec.a", "$a_1"}) + "}")
+		sb.WriteString("{plural " + g.r.Pick(c13Selectors) + "}")
 		for _, cv := range []string{"0", "1", "2"}[:g.r.Intn(3)] {
 			sb.WriteString("{case " + cv + "}" + g.msgParts(1+g.r.Intn(3)))
 		}
@@ -118,6 +125,43 @@ func (g *c13gen) msg() string {
 	}
 	sb.WriteString("{/msg}")
 	return sb.String()
+}
+
+// msgsTemplate writes a template of n messages over the shared pools of
+// placeholder expressions and plural selectors.
+func (g *c13gen) msgsTemplate(sb *strings.Builder, name string, n int) {
+	sb.WriteString("/**\n * @param rec\n * @param d\n * @param a\n * @param a_1\n * @param a_2\n * @param b\n * @param l\n")
+	for _, v := range c13MsgVars {
+		sb.WriteString(" * @param " + v + "\n")
+	}
+	sb.WriteString(" */\n{template ." + name + "}\n")
+	sb.WriteString("{if $rec and $d and $a and $a_1 and $a_2 and $b and $l")
+	for _, v := range c13MsgVars {
+		sb.WriteString(" and $" + v)
+	}
+	sb.WriteString("}{/if}")
+	for i := 0; i < n; i++ {
+		sb.WriteString(g.msg() + "\n")
+	}
+	sb.WriteString("{/template}\n\n")
+}
+
+// msgFiles builds zero to two more files with messages (namespaces of their
+// own), so that the file insertion order decides which use of an expression --
+// print placeholder or plural selector -- the compiler sees first.
+func (g *c13gen) msgFiles() (files []srcFile) {
+	n := []int{0, 1, 1, 2}[g.r.Intn(4)]
+	for i := 0; i < n; i++ {
+		g.feat("msg-file")
+		var sb strings.Builder
+		sb.WriteString(fmt.Sprintf("{namespace xmsg%d}\n\n", i))
+		nt := 1 + g.r.Intn(2)
+		for t := 0; t < nt; t++ {
+			g.msgsTemplate(&sb, fmt.Sprintf("m%d", t), 1+g.r.Intn(2))
+		}
+		files = append(files, srcFile{Name: fmt.Sprintf("msgs%d.soy", i), Text: sb.String()})
+	}
+	return files
 }
 
 // extras builds the extras file.  others: templates of the other files.
@@ -147,20 +191,19 @@ func (g *c13gen) extras(others, libs []string) srcFile {
 	}
 	sb.WriteString("\n{/template}\n\n")
 	// messages
-	sb.WriteString("/**\n * @param rec\n * @param d\n * @param a\n * @param a_1\n * @param a_2\n * @param b\n")
-	for _, v := range c13MsgVars {
-		sb.WriteString(" * @param " + v + "\n")
+	g.msgsTemplate(&sb, "msgs", 1+g.r.Intn(3))
+	// header-style params: without a soydoc, after an empty soydoc, after a
+	// soydoc that is only text; optional params; params only passed on by data="all"
+	// (everything Registry.Add rewrites in the tree it is given)
+	g.feat("header-params")
+	docs := []string{"", "", "/** */\n", "/**\n * Header params follow.\n */\n"}
+	if g.r.Chance(40) { // every template with header params has a soydoc in front (Spec/Determinism.v headers_documented)
+		docs = docs[2:]
 	}
-	sb.WriteString(" */\n{template .msgs}\n")
-	sb.WriteString("{if $rec and $d and $a and $a_1 and $a_2 and $b")
-	for _, v := range c13MsgVars {
-		sb.WriteString(" and $" + v)
-	}
-	sb.WriteString("}{/if}")
-	for i := 0; i < 1+g.r.Intn(3); i++ {
-		sb.WriteString(g.msg() + "\n")
-	}
-	sb.WriteString("{/template}\n\n")
+	sb.WriteString(g.r.Pick(docs) + "{template .hpLeaf" + g.r.Pick([]string{"", ` private="true"`}) + "}\n{@param? a: int}\n{@param? opt: int|null}\n{@param? s: string}\n{$a ?: 1}{$opt ?: 2}{$s ?: 'none'}\n{/template}\n\n")
+	sb.WriteString(g.r.Pick(docs) + "{template .hpAll}\n{@param? a: int}\n{@param? opt: int|null}\n{call .hpLeaf data=\"all\" /}\n{/template}\n\n")
+	sb.WriteString(g.r.Pick(docs) + "{template .hpMixed}\n{@param a: int}\n{@param? opt: int|null}\n{@param l: list<int>}\n{$a}{if $opt}{$opt}{/if}{foreach $x in $l}{$x}{/foreach}" +
+		"{call .hpLeaf data=\"all\"}{param s: 'p' + $a /}{/call}{call .hpAll data=\"all\" /}{call .leaf data=\"all\" /}\n{/template}\n\n")
 	// map literals
 	g.feat("maplit")
 	sb.WriteString("/** @param a */\n{template .maps}\n")
@@ -180,6 +223,11 @@ func (g *c13gen) extras(others, libs []string) srcFile {
 		for _, n := range g.gFam {
 			sb.WriteString("{" + n + " + 1}")
 		}
+		// globals that are maps and lists (nested): printed, passed to functions and
+		// directives, bound, iterated, inside literals, as a message placeholder
+		sb.WriteString("{G_MAP}{keys(G_MAP)}{G_MAP|json}{let $gm: G_MAP/}{$gm|json}{length(G_LIST)}{foreach $gi in G_LIST}{$gi}{/foreach}{G_LIST|json}" +
+			"{augmentMap(G_MAP, ['zz': G_LIST])|json}{let $gl: [app.PALETTE, G_LIST, ['m': G_MAP]]/}{$gl}{app.PALETTE}{G_MAP ? 1 : 0}")
+		sb.WriteString("{msg desc=\"g\"}" + g.r.Pick([]string{"{G_MAP}", "{app.PALETTE}", "{G_LIST}"}) + " and {G_MAP|json}{/msg}")
 		sb.WriteString("\n{/template}\n\n")
 	}
 	return srcFile{Name: "extras.soy", Text: sb.String()}
@@ -219,6 +267,34 @@ func (g *c13gen) libs() (files []srcFile, names []string) {
 	return files, names
 }
 
+// c13MapLit is a Soy map literal with 2-6 keys of one identifier family (values:
+// primitives, lists, maps; nested to the given depth); c13ListLit a list of such.
+func c13MapLit(r *hx.Rand, depth int) string {
+	var items []string
+	for i, k := range c13Family(r, r.Pick([]string{"key", "fg", "item"}), 2+r.Intn(5)) {
+		items = append(items, "'"+k+"': "+c13ValLit(r, depth, i))
+	}
+	return "[" + strings.Join(items, ", ") + "]"
+}
+
+func c13ListLit(r *hx.Rand, depth int) string {
+	var items []string
+	for i := 0; i < 1+r.Intn(4); i++ {
+		items = append(items, c13ValLit(r, depth, i))
+	}
+	return "[" + strings.Join(items, ", ") + "]"
+}
+
+func c13ValLit(r *hx.Rand, depth, i int) string {
+	if depth > 0 && r.Chance(40) {
+		if r.Bool() {
+			return c13MapLit(r, depth-1)
+		}
+		return c13ListLit(r, depth-1)
+	}
+	return r.Pick([]string{fmt.Sprint(i), "'#" + fmt.Sprint(i) + "'", "true", "null", "1.5", "'" + r.Pick(c13TextPool) + "'", "-" + fmt.Sprint(i+1)})
+}
+
 func c13Gen(r *hx.Rand, hist map[string]int) c13Case {
 	g := &c13gen{r: r, hist: hist}
 	files, _, _, feats := genBundle(r, progOpts{depth: 2, directives: true})
@@ -236,10 +312,11 @@ func c13Gen(r *hx.Rand, hist map[string]int) c13Case {
 	g.useG = r.Chance(60)
 	libFiles, libNames := g.libs()
 	g.gFam = c13Family(r, "gv", 2+r.Intn(3))
-	c.Files = append(append(files, libFiles...), g.extras(others, libNames))
+	c.Files = append(append(append(files, libFiles...), g.extras(others, libNames)), g.msgFiles()...)
 	if g.useG {
 		all := []c13Global{{"G_INT", fmt.Sprint(r.Intn(100))}, {"G_STR", soyStr(r.Pick(strPool))}, {"app.NAME", "'app'"}, {"G_BOOL", r.Pick([]string{"true", "false"})},
-			{"G_FLOAT", r.Pick([]string{"0.5", "2.25", "10.0"})}, {"G_NULL", "null"}, {"UNUSED_1", "1"}, {"UNUSED_2", "'two'"}}
+			{"G_FLOAT", r.Pick([]string{"0.5", "2.25", "10.0"})}, {"G_NULL", "null"}, {"UNUSED_1", "1"}, {"UNUSED_2", "'two'"},
+			{"G_MAP", c13MapLit(r, 2)}, {"G_LIST", c13ListLit(r, 2)}, {"app.PALETTE", c13MapLit(r, 1)}, {"UNUSED_MAP", c13MapLit(r, 1)}}
 		for i, n := range g.gFam {
 			all = append(all, c13Global{n, fmt.Sprint(100 + i)})
 		}
@@ -256,6 +333,10 @@ func c13Gen(r *hx.Rand, hist map[string]int) c13Case {
 		}
 	} else if r.Chance(30) {
 		c.Globals = [][]c13Global{{{"UNUSED_1", "1"}}}
+	}
+	// each group reaches the bundle through AddGlobalsMap or through a globals file
+	for range c.Globals {
+		c.GlobalsFile = append(c.GlobalsFile, r.Chance(40))
 	}
 	// ---- injected errors ----
 	if r.Chance(45) {
@@ -331,6 +412,7 @@ func (g *c13gen) inject(c *c13Case, nsOf map[int]string) {
 		// a second (or third) globals map that redefines 1-3 names
 		if len(c.Globals) == 0 {
 			c.Globals = [][]c13Global{{{"R1", "1"}, {"R2", "2"}, {"R3", "3"}}}
+			c.GlobalsFile = []bool{g.r.Bool()}
 		}
 		first := c.Globals[0]
 		k := 1 + g.r.Intn(3)
@@ -340,6 +422,7 @@ func (g *c13gen) inject(c *c13Case, nsOf map[int]string) {
 		}
 		re = append(re, c13Global{"FRESH_" + id, "0"})
 		c.Globals = append(c.Globals, re)
+		c.GlobalsFile = append(c.GlobalsFile, g.r.Bool())
 		c.Errors = append(c.Errors, fmt.Sprintf("globals-redefined(%d)", len(re)-1))
 		g.feat("err:globals-redefined")
 	}
